@@ -36,7 +36,7 @@ def scratch(patch=None):
 
 def run_demo(demo, repo_dir):
     src = open(demo).read()
-    src = re.sub(r"/tmp/seed/C\d\d", repo_dir, src)
+    src = re.sub(r"/tmp/seed\d?/C\d\d", repo_dir, src)
     with tempfile.NamedTemporaryFile("w", suffix=".py", delete=False) as fp:
         fp.write(src)
         tmp = fp.name
@@ -55,13 +55,13 @@ def baseline(repo_dir):
     return r.returncode == 0, r.stdout.strip().splitlines()[0] if r.stdout else ""
 
 
-def cmd_import(outdir):
+def cmd_import(outdir, tag=""):
     metas = json.load(open(os.path.join(outdir, "meta.json")))
     for k, meta in enumerate(metas, 1):
         patch = os.path.join(outdir, meta["patch"])
         demo = os.path.join(outdir, meta["demo"])
         prop = meta["property"]
-        name = f"{prop}-{k}"
+        name = f"{prop}-{tag}{k}"
         clean = scratch()
         try:
             rc_clean, out_clean = run_demo(demo, clean)
@@ -138,7 +138,7 @@ def cmd_run(names, all_checks, tier):
 if __name__ == "__main__":
     a = sys.argv[1:]
     if a and a[0] == "import":
-        cmd_import(a[1])
+        cmd_import(a[1], a[a.index("--tag") + 1] if "--tag" in a else "")
     elif a and a[0] == "run":
         tier = a[a.index("--tier") + 1] if "--tier" in a else "quick"
         cmd_run([x for x in a[1:] if not x.startswith("--") and x != tier], "--all-checks" in a, tier)
